@@ -161,8 +161,134 @@ func CallEv(i int, c wl.Call) wl.Ev {
 	case "metadata":
 		e["name"] = wl.Blob(c.Name)
 		e["md"] = MdEv(c.MD)
+	case "addschema":
+		e["id"] = int(c.ID)
+		e["name"] = wl.Blob(c.Name)
+		e["enc"] = wl.Blob(c.Enc)
+		e["data"] = wl.Blob(c.Data)
+	case "addchannel":
+		e["id"] = int(c.ID)
+		e["schema"] = int(c.Schema)
+		e["topic"] = wl.Blob(c.Topic)
+		e["menc"] = wl.Blob(c.Menc)
+		e["md"] = MdEv(c.MD)
+	case "chunk":
+		a := AssembleChunk(c, false)
+		items := make([]any, 0, len(c.Inner))
+		for j, x := range c.Inner {
+			it := CallEv(j, x)
+			delete(it, "ev")
+			delete(it, "i")
+			it["k"] = map[string]string{"schema": "Schema", "channel": "Channel", "message": "Message"}[x.Op]
+			items = append(items, map[string]any(it))
+		}
+		e["items"] = items
+		e["comp"] = c.CComp
+		e["csize"] = uint64(len(a.Records))
+		e["usize"] = a.USize
+		e["idx"] = c.Idx
+		given := make([]any, 0, len(a.Given))
+		for _, g := range a.Given {
+			ents := make([]any, 0, len(g.Entries))
+			for _, x := range g.Entries {
+				ents = append(ents, map[string]any{"t": wl.Tm(x.Time), "off": x.Offset})
+			}
+			given = append(given, map[string]any{"ch": int(g.Ch), "entries": ents})
+		}
+		e["given"] = given
 	}
 	return e
+}
+
+// GivenIdx is one message index handed to WriteChunkWithIndexes.
+type GivenIdx struct {
+	Ch      uint16
+	Entries []refmcap.IdxEntry
+}
+
+// Assembled is a chunk put together by the caller (the harness) with the independent encoder.
+type Assembled struct {
+	Start, End, USize uint64
+	CRC               uint32
+	Records           []byte
+	Given             []GivenIdx
+	NMsgs             int
+	PerCh             map[uint16]uint64
+}
+
+// AssembleChunk encodes the inner records of a "chunk" call with the independent encoder, computes the true time
+// range, the CRC of the uncompressed records (0 unless crc) and the exact per-channel message indexes, arranged as
+// the call's Idx mode says.
+func AssembleChunk(c wl.Call, crc bool) *Assembled {
+	a := &Assembled{PerCh: map[uint16]uint64{}}
+	var raw []byte
+	var order []uint16
+	ents := map[uint16][]refmcap.IdxEntry{}
+	first := true
+	for _, x := range c.Inner {
+		off := uint64(len(raw))
+		switch x.Op {
+		case "schema":
+			raw = append(raw, refmcap.Frame(refmcap.OpSchema, refmcap.BodySchema(x.ID, x.Name, x.Enc, x.Data))...)
+		case "channel":
+			md := make([]refmcap.KV, 0, len(x.MD))
+			mm := map[string]string{}
+			for _, kv := range x.MD {
+				mm[string(kv.K)] = string(kv.V)
+			}
+			keys := make([]string, 0, len(mm))
+			for k := range mm {
+				keys = append(keys, k)
+			}
+			sort.Strings(keys)
+			for _, k := range keys {
+				md = append(md, refmcap.KV{K: []byte(k), V: []byte(mm[k])})
+			}
+			raw = append(raw, refmcap.Frame(refmcap.OpChannel, refmcap.BodyChannel(x.ID, x.Schema, x.Topic, x.Menc, md))...)
+		case "message":
+			raw = append(raw, refmcap.Frame(refmcap.OpMessage, refmcap.BodyMessage(x.Ch, x.Seq, x.Log, x.Pub, x.Data))...)
+			if _, ok := ents[x.Ch]; !ok {
+				order = append(order, x.Ch)
+			}
+			ents[x.Ch] = append(ents[x.Ch], refmcap.IdxEntry{Time: x.Log, Offset: off})
+			if first || x.Log < a.Start {
+				a.Start = x.Log
+			}
+			if first || x.Log > a.End {
+				a.End = x.Log
+			}
+			first = false
+			a.NMsgs++
+			a.PerCh[x.Ch]++
+		}
+	}
+	a.USize = uint64(len(raw))
+	if crc {
+		a.CRC = refmcap.CRC(raw)
+	}
+	rec, err := refmcap.Compress(c.CComp, raw)
+	if err != nil {
+		rec = raw
+	}
+	a.Records = rec
+	switch c.Idx {
+	case "none":
+	case "rev":
+		for i := len(order) - 1; i >= 0; i-- {
+			a.Given = append(a.Given, GivenIdx{Ch: order[i], Entries: ents[order[i]]})
+		}
+	case "extra":
+		a.Given = append(a.Given, GivenIdx{Ch: 4242})
+		for _, ch := range order {
+			a.Given = append(a.Given, GivenIdx{Ch: ch, Entries: ents[ch]})
+		}
+		a.Given = append(a.Given, GivenIdx{Ch: 4243})
+	default:
+		for _, ch := range order {
+			a.Given = append(a.Given, GivenIdx{Ch: ch, Entries: ents[ch]})
+		}
+	}
+	return a
 }
 
 // StateEv projects the writer's public state.
@@ -186,7 +312,7 @@ func StateEv(w *mcap.Writer) map[string]any {
 }
 
 // Apply performs one call on the writer. The returned string is ok | err | panic.
-func Apply(w *mcap.Writer, c wl.Call) (ret string, err error) {
+func Apply(w *mcap.Writer, c wl.Call, crcOn bool) (ret string, err error) {
 	defer func() {
 		if r := recover(); r != nil {
 			ret = "panic"
@@ -219,6 +345,29 @@ func Apply(w *mcap.Writer, c wl.Call) (ret string, err error) {
 		err = w.WriteAttachment(&mcap.Attachment{LogTime: c.Log, CreateTime: c.Create, Name: string(c.Name), MediaType: string(c.Media), DataSize: size, Data: src})
 	case "metadata":
 		err = w.WriteMetadata(&mcap.Metadata{Name: string(c.Name), Metadata: mdMap(c.MD)})
+	case "addschema":
+		w.AddSchema(&mcap.Schema{ID: c.ID, Name: string(c.Name), Encoding: string(c.Enc), Data: c.Data})
+	case "addchannel":
+		w.AddChannel(&mcap.Channel{ID: c.ID, SchemaID: c.Schema, Topic: string(c.Topic), MessageEncoding: string(c.Menc), Metadata: mdMap(c.MD)})
+	case "chunk":
+		a := AssembleChunk(c, crcOn)
+		var idxs []*mcap.MessageIndex
+		for _, g := range a.Given {
+			mi := &mcap.MessageIndex{ChannelID: g.Ch}
+			for _, x := range g.Entries {
+				mi.Add(x.Time, x.Offset)
+			}
+			idxs = append(idxs, mi)
+		}
+		err = w.WriteChunkWithIndexes(&mcap.Chunk{MessageStartTime: a.Start, MessageEndTime: a.End, UncompressedSize: a.USize,
+			UncompressedCRC: a.CRC, Compression: c.CComp, Records: a.Records}, idxs)
+		if err == nil && a.USize > 0 {
+			// the caller's part of the contract: WriteChunkWithIndexes does not count messages
+			w.Statistics.MessageCount += uint64(a.NMsgs)
+			for ch, n := range a.PerCh {
+				w.Statistics.ChannelMessageCounts[ch] += n
+			}
+		}
 	case "close":
 		err = w.Close()
 	default:
@@ -324,7 +473,7 @@ func RunWriter(tr *wl.Trace, w wl.Workload, sink io.Writer, buf *bytes.Buffer) *
 		if fs != nil {
 			fs.Current = i + 1
 		}
-		ret, cerr := Apply(writer, c)
+		ret, cerr := Apply(writer, c, w.Cfg.CRC)
 		e := CallEv(i, c)
 		if c.Op == "header" {
 			e["explib"] = wl.Blob(ExpectedLibrary(w.Cfg, c.Library, "mcap-go/"+trimV(mcap.Version)))
